@@ -218,6 +218,7 @@ func runC01(e *Env) {
 	}
 	flush()
 	c01Directed(e)
+	c01Edge(e)
 }
 
 // evalOrderGuard names the known evaluation-order deviations: both operands of `in`/`not in`
